@@ -96,24 +96,30 @@ func (e *Encoder) writeMap(data interface{}) (int, error) {
 	vv = UnpackPtrValue(vv)
 	// check nil map
 	if vv.Kind() == reflect.Ptr && !vv.Elem().IsValid() {
-		e.writeBT(_nilTag)
-		return 0, nil
+		_, err := e.writeBT(_nilTag)
+		return 0, err
 	}
 
 	keys := vv.MapKeys()
 	if len(keys) == 0 {
-		e.writeBT(_nilTag)
-		return 0, nil
+		_, err := e.writeBT(_nilTag)
+		return 0, err
 	}
 
 	typ := vv.Type()
 
 	mapName, ok := e.nameMap[typ.Name()]
 	if ok {
-		e.writeBT(_mapTypedTag)
-		e.writeString(mapName)
+		if _, err := e.writeBT(_mapTypedTag); err != nil {
+			return 0, err
+		}
+		if _, err := e.writeString(mapName); err != nil {
+			return 0, err
+		}
 	} else {
-		e.writeBT(_mapUntypedTag)
+		if _, err := e.writeBT(_mapUntypedTag); err != nil {
+			return 0, err
+		}
 	}
 
 	count := 0
@@ -138,7 +144,9 @@ func (e *Encoder) writeMap(data interface{}) (int, error) {
 		count = vv.NumField()
 		for i := 0; i < count; i++ {
 			f := vv.Field(i)
-			e.writeString(f.Type().Name())
+			if _, err := e.writeString(f.Type().Name()); err != nil {
+				return 0, err
+			}
 			_, err := e.WriteData(f.Interface())
 			if err != nil {
 				return 0, err
@@ -146,7 +154,9 @@ func (e *Encoder) writeMap(data interface{}) (int, error) {
 		}
 	}
 
-	e.writeBT(_endFlag)
+	if _, err := e.writeBT(_endFlag); err != nil {
+		return 0, err
+	}
 
 	return count, nil
 }
